@@ -566,7 +566,7 @@ func TestC28(t *testing.T) {
 							r.Violation(i, "querystring-mutates-args", fmt.Sprintf("after %v and QueryString(): %s", ops, what), map[string]any{"ops": fmt.Sprint(ops)})
 							break
 						}
-						if s == nops-1 && r.WantSample() && maxDup > 1 && hb&^1 != 0 {
+						if s == nops-1 && maxDup > 1 && hb&^1 != 0 && r.WantSample() {
 							r.Sample(map[string]any{"ops": fmt.Sprint(ops), "model": m.String(), "querystring": string(qs), "reparsed": fmt.Sprintf("%q", listAll(parsed, false))})
 						}
 					}
